@@ -17,6 +17,12 @@ ASSUMPTIONS = c01.ASSUMPTIONS
 UDP = c01.UDP
 
 
+def _remaining_positive(W, a):
+    """`sync_remaining_roundtrips > 0`, also spelled `!= 0` (the field is unsigned)"""
+    unsigned = any(x['name'] == 'sync_remaining_roundtrips' and x['ty'].startswith('u') for x in W.struct_fields('UdpProtocol'))
+    return match_lin(a, [(exact('self.sync_remaining_roundtrips'), 1)], lo=1) or (unsigned and match_lin(a, [(exact('self.sync_remaining_roundtrips'), 1)], neq=0))
+
+
 def o1(W, ob):
     f = W.fn(UDP + '::on_input')
     G = W.guards(f)
@@ -189,7 +195,7 @@ def o5(W, ob):
     ob.require_count(len(ss), 1, 'next sync request in on_sync_reply')
     for b in ss:
         g = G.guard(b)
-        ok = every_disjunct_has(g, lambda a: match_lin(a, [(exact('self.sync_remaining_roundtrips'), 1)], lo=1))
+        ok = every_disjunct_has(g, lambda a: _remaining_positive(W, a))
         ob.check(ok, 'on_sync_reply|continue', 'a matched reply with round trips left sends the next request',
                  'on_sync_reply sends the next request under ' + dnf_str(g)[:200], where(r, r.blocks[b].term.line))
     sy = W.fn(UDP + '::synchronize')
